@@ -50,8 +50,9 @@ THEOREMS = [
     "Measured.C05.single_factor_conversion_exact", "Measured.C05.simple_conversion_exact",
     "Measured.Obligations.Direct.shipped_fundamental_dimensions", "Measured.Obligations.Direct.single_factor_inhabited",
     "Measured.Obligations.Direct.simple_inhabited",
+    "Measured.matchFactors_refactor", "Measured.reach2_graphOK",
 ]
-LEAN_TARGETS = ["Props.C05", "Obligations.C05", "Obligations.C05Direct"]
+LEAN_TARGETS = ["Props.C05", "Proofs.MatchRefactor", "Proofs.ReachSimple", "Obligations.C05", "Obligations.C05Direct"]
 QUICK = {"chunks": 4, "ops": 1500}
 THOROUGH = {"chunks": 16, "ops": 9000}
 RTOL = 1e-11
